@@ -346,6 +346,7 @@ def _rm_elem_sites(facts, it, r, sub=()):
 
 
 @rule('RM', {
+    'C09': 'an element whose adds were all covered by an applied remove stays absent only if the remove routine subtracts the whole remove context and prunes: it is also what a remembered (pending) remove is replayed through when the stale adds arrive',
     'C04': 'subtracting anything but the remove context removes unobserved adds; not pruning keeps a removed member visible',
     'C05': 'same for keys; without the nested reset everything the remover saw under a surviving key stays',
     'C08': 'a deferred remove is replayed through this routine',
@@ -567,6 +568,7 @@ def _reexam_ok(facts, it, r, rc, start_blocks):
 
 
 @rule('DEF-REEXAM', {
+    'C09': 'a remove applied before the adds it covers is only remembered: the covered adds that trickle in later stay absent only if the pending removes are re-examined after every such arrival',
     'C04': 'Orswot: a remove that overtook an add must still remove it once the add arrives (membership at every replica, all schedules)',
     'C05': 'Map: same for key removes',
     'C08': 'without re-examination after clock growth the late add that a pending remove covers stays forever',
@@ -620,6 +622,7 @@ def def_reexam(ctx):
 
 
 @rule('DEF-TAKE', {
+    'C09': 'every remembered remove must be replayed when covered adds arrive late, including the ones that are still ahead of the replica (they strip what has arrived so far)',
     'C04': 'Orswot: a remove that overtook an add must still remove it once the add arrives (membership at every replica, all schedules)',
     'C05': 'Map: same for key removes',
     'C20': 'if the table is not emptied before re-applying, covered removes are never dropped',
@@ -701,6 +704,7 @@ def def_take(ctx):
 
 
 @rule('DEF-MERGE', {
+    'C09': 'merging a lagging state must not bring back what a remembered remove of either side covers',
     'C04': 'Orswot: a remove that overtook an add must still remove it once the add arrives (membership at every replica, all schedules)',
     'C05': 'Map: same for key removes',
     'C08': 'pending removes must travel inside merged states',
